@@ -74,32 +74,59 @@ func loadScenarios(path string) []*Scenario {
 }
 
 // treeOK: the library accepts the declaration (setup succeeds).
+// dropReasons counts why generated trees were not used (printed by the generators; a library that rejects or mis-reads
+// most of what is generated must not pass for lack of input).
+var dropReasons = map[string]int{}
+
+// treeOK: the generated declaration is one the library accepts.  A tree is dropped only for a setup error the generator
+// itself may have caused (two options of one scope drawing the same name from the pools).  Anything else the library
+// does with the declaration - another setup error, a panic, options held in another order or number than declared -
+// is kept: the scenarios over it are run and judged like any other.
 func treeOK(t *Tree) bool {
 	ok := true
 	func() {
 		defer func() {
 			if r := recover(); r != nil {
-				ok = false
+				dropReasons["kept:panic"]++
 			}
 		}()
 		b := Build(t, flags.None)
 		if b.err != nil {
-			ok = false
+			if fe, isF := b.err.(*flags.Error); isF && fe.Type == flags.ErrDuplicatedFlag {
+				dropReasons["dropped:duplicate"]++
+				ok = false
+			} else {
+				dropReasons["kept:setup-error:"+b.err.Error()]++
+			}
 			return
 		}
 		if _, err := b.p.ParseArgs([]string{"--"}); err != nil {
 			if fe, isF := err.(*flags.Error); isF {
 				switch fe.Type {
-				case flags.ErrDuplicatedFlag, flags.ErrTag, flags.ErrInvalidTag, flags.ErrShortNameTooLong:
+				case flags.ErrDuplicatedFlag:
+					dropReasons["dropped:duplicate"]++
 					ok = false
+					return
+				case flags.ErrTag, flags.ErrInvalidTag, flags.ErrShortNameTooLong:
+					dropReasons["kept:setup-error"]++
+					return
 				}
 			}
 		}
 		if !sanityOrder(b) {
-			ok = false
+			dropReasons["kept:order"]++
 		}
 	}()
 	return ok
+}
+
+func reportDrops(kept int) {
+	if len(dropReasons) > 0 {
+		fmt.Fprintf(os.Stderr, "generator: %d trees used; not used, or used although unusual: %v\n", kept, dropReasons)
+	}
+	if d := dropReasons["dropped:duplicate"]; d > 3*kept+50 {
+		die(2, "the library rejects most generated declarations as duplicates (%d of %d): no input to judge with", d, d+kept)
+	}
 }
 
 // sanityOrder: the flat numbering equals the order in which the library holds options and commands.
@@ -164,6 +191,7 @@ func cmdGen(args []string) {
 		}
 		trees = append(trees, t)
 	}
+	reportDrops(len(trees))
 	ft, _ := os.Create(*outTrees)
 	fd, _ := os.Create(*outDecls)
 	fsn, _ := os.Create(*outScen)
@@ -511,6 +539,7 @@ func main() {
 			}
 			n++
 		}
+		reportDrops(*ntrees)
 		wt.Flush()
 		wd.Flush()
 		ws.Flush()
@@ -551,6 +580,7 @@ func main() {
 			}
 			n++
 		}
+		reportDrops(*ntrees)
 		wt.Flush()
 		wd.Flush()
 		ws.Flush()
@@ -609,6 +639,7 @@ func main() {
 			}
 			n++
 		}
+		reportDrops(*ntrees)
 		wt.Flush()
 		wd.Flush()
 		ws.Flush()
